@@ -1010,7 +1010,23 @@ func absentMarkWriters(c *Ctx, id string) {
 		for _, cs := range w.callersOf(s) {
 			n++
 			caller := rootFn(cs.Fn)
-			if caller != mark {
+			// the lookup may live in a helper of markAbsentInstances: what matters is that the function that marks is
+			// the one that asks the cluster map where the copy lives (what it does with the answer is C07.R10's)
+			asks := false
+			for _, f := range withAnon(caller) {
+				allInstrs(f, func(in ssa.Instruction) {
+					if cc := callOf(in); cc != nil && cc.StaticCallee() != nil && cc.StaticCallee().Name() == "VbucketToServer" {
+						asks = true
+					}
+				})
+			}
+			inUnit := false
+			for _, g := range methodUnit(w, mark) {
+				if rootFn(g) == caller {
+					inUnit = true
+				}
+			}
+			if !(inUnit && asks) {
 				badCall += " " + fname(caller) + "@" + w.pos(cs.Call.Pos())
 			}
 		}
@@ -1097,4 +1113,141 @@ func whoMaySave(c *Ctx, id string) {
 		})
 	}
 	c.Check(n > 0 && bad == "", id, "who-may-save", 0, fmt.Sprintf("%d invocations of Metadata.Save: Checkpoint.Save and forwarding wrappers only", n), "a checkpoint backend is handed something other than Checkpoint.Save's dump:"+bad)
+}
+
+// closeOnlySignals (C13): the public Close() asks the running client to shut down and returns; it does not wait for
+// the teardown. It may be called from the listener, in the middle of a delivery — the teardown then needs that very
+// delivery to finish, so a Close that waits (a WaitGroup, a receive, a lock, a sleep, a blocking select) deadlocks.
+// Allowed: sends on channels; everything reachable through module calls (two levels) is held to the same rule.
+func closeOnlySignals(c *Ctx, id string) {
+	w := c.W
+	var cl *ssa.Function
+	for _, fn := range w.ModFuncs {
+		if fname(fn) == "(*dcp.dcp).Close" {
+			cl = fn
+		}
+	}
+	c.need(cl != nil, id, "(*dcp).Close")
+	var bad []string
+	sends := 0
+	seen := map[*ssa.Function]bool{}
+	var visit func(fn *ssa.Function, depth int)
+	visit = func(fn *ssa.Function, depth int) {
+		if seen[fn] || fn.Blocks == nil {
+			return
+		}
+		seen[fn] = true
+		c.see(fn)
+		allInstrs(fn, func(in ssa.Instruction) {
+			switch x := in.(type) {
+			case *ssa.Send:
+				sends++
+			case *ssa.Select:
+				if x.Blocking {
+					bad = append(bad, "blocking select @"+w.pos(in.Pos()))
+				}
+			case *ssa.UnOp:
+				if x.Op.String() == "<-" {
+					bad = append(bad, "receive @"+w.pos(in.Pos()))
+				}
+			case ssa.CallInstruction:
+				if _, isGo := in.(*ssa.Go); isGo {
+					return
+				}
+				cc := x.Common()
+				name := calleeName(cc)
+				switch {
+				case strings.HasSuffix(name, "WaitGroup).Wait"), strings.HasSuffix(name, "Mutex).Lock"), strings.HasSuffix(name, "Mutex).RLock"), name == "time.Sleep", strings.HasSuffix(name, "Cond).Wait"), strings.HasSuffix(name, "Once).Do"):
+					bad = append(bad, name+" @"+w.pos(in.Pos()))
+				}
+				if cal := cc.StaticCallee(); cal != nil && w.inModule(cal) && depth < 2 {
+					visit(cal, depth+1)
+				}
+			}
+		})
+	}
+	visit(cl, 0)
+	c.Check(len(bad) == 0 && sends >= 1, id, "close-signals", cl.Pos(), fmt.Sprintf("Close sends its request (%d send) and waits for nothing", sends), "Close() waits ("+strings.Join(bad, ", ")+"): called from the listener it deadlocks with the teardown that needs the delivery to finish")
+}
+
+// readOnlyForwardsLoad (C15/C02): the read-only wrapper hands on what the wrapped store answered — the documents, the
+// exists flag and above all the error — whatever its own state: exactly one Load of the wrapped store with the
+// wrapper's own arguments, its three results returned untouched (exhaustive over success / failure).
+func readOnlyForwardsLoad(c *Ctx, id string) {
+	w := c.W
+	var ld *ssa.Function
+	for _, fn := range w.implsOf("metadata", "Metadata", "Load") {
+		if recvTypeName(fn.Signature.Recv().Type()) == "readMetadata" {
+			ld = fn
+		}
+	}
+	c.need(ld != nil && len(ld.Params) == 3, id, "readMetadata.Load(vbIds, bucketUUID)")
+	c.see(ld)
+	h := &Harness{Fn: ld, Bools: []string{"loadFails", "exists"}, Quiet: quietLog,
+		Oracle: func(st *State, name string, args []AV, res *types.Tuple) ([]AV, bool) {
+			if strings.HasSuffix(name, ".Load") && res != nil && res.Len() == 3 {
+				if st.B("loadFails") {
+					return []AV{avPtr{nil}, avBool{false}, avIface{sym: "errLoad"}}, true
+				}
+				return []AV{ptrResult(res, 0, "documents"), avBool{st.B("exists")}, avIface{isNil: true}}, true
+			}
+			return nil, false
+		}}
+	c.oae(id, "read-only:load", ld.Pos(), h, func(st *State, out *Outcome) string {
+		var loads []Effect
+		for _, e := range out.Trace {
+			if strings.HasSuffix(e.Name, ".Load") {
+				loads = append(loads, e)
+			}
+		}
+		if len(loads) != 1 || len(loads[0].Args) != 2 || avString(loads[0].Args[0]) != "?slice "+ld.Params[1].Name() || avString(loads[0].Args[1]) != ld.Params[2].Name() {
+			return fmt.Sprintf("asks the wrapped store %v (expected once, with its own arguments)", loads)
+		}
+		e, ok := out.Ret[2].(avIface)
+		if !ok || e.isNil == st.B("loadFails") {
+			return "the wrapped store's failure is not what the wrapper reports: " + avString(out.Ret[2])
+		}
+		if st.B("loadFails") {
+			return ""
+		}
+		if p, ok := out.Ret[0].(avPtr); !ok || p.c == nil || p.c.sym != "documents" {
+			return "returns other documents than the wrapped store's: " + avString(out.Ret[0])
+		}
+		if b, ok := out.Ret[1].(avBool); !ok || b.b != st.B("exists") {
+			return "changes the exists answer"
+		}
+		return ""
+	}, "one wrapped Load with the same arguments; its (documents, exists, error) returned untouched")
+}
+
+// noCustomDecoding (C17): the configuration is decoded twice into the same value (raw, then with ${VAR} substituted);
+// that is only idempotent because every configuration type is decoded by the YAML library's plain rules (a second
+// decode overwrites). A configuration type with its own Unmarshal method can accumulate across the two passes.
+func noCustomDecoding(c *Ctx, id string) {
+	w := c.W
+	p := w.Pkgs["config"]
+	c.need(p != nil, id, "package config")
+	nTypes := 0
+	bad := ""
+	sc := p.Types.Scope()
+	for _, name := range sc.Names() {
+		tn, ok := sc.Lookup(name).(*types.TypeName)
+		if !ok {
+			continue
+		}
+		nTypes++
+		for _, t := range []types.Type{tn.Type(), types.NewPointer(tn.Type())} {
+			ms := types.NewMethodSet(t)
+			for i := 0; i < ms.Len(); i++ {
+				m := ms.At(i).Obj().Name()
+				if strings.HasPrefix(m, "Unmarshal") || strings.HasPrefix(m, "Decode") {
+					if !strings.Contains(bad, name+"."+m) {
+						bad += " " + name + "." + m
+					}
+				}
+			}
+		}
+	}
+	// fields of the configuration whose types come from elsewhere in the module with a decoder of their own
+	c.Check(nTypes >= 10 && bad == "", id, "plain-decoding", 0, fmt.Sprintf("%d configuration types, none decodes itself", nTypes), "configuration types with their own decoding:"+bad+" — the two-pass load (raw, then substituted) is no longer an overwrite")
 }
